@@ -355,6 +355,15 @@ func (c *checker) diffLines(be *backend, want, got obs, rank int64, ctx func() m
 	return -1
 }
 
+// gotClass is the class of what the backend returned, made distinguishable when only the payload differs.
+func gotClass(wrest, grest string) string {
+	g := classOf(grest)
+	if g == classOf(wrest) {
+		return "different-" + g
+	}
+	return g
+}
+
 // ---------------------------------------------------------------------------------------------
 // section A: single write ops in every mode
 
@@ -608,7 +617,7 @@ func (c *checker) sectionA(fullKeys, repKeys int) {
 							grest = gl
 						}
 						key := fmt.Sprintf("write-divergence %s mode=%s op=%c stage=%s call=%s expected=%s got=%s",
-							be.name, w.m.name, w.op.kind, stage, callOf(wrest), classOf(wrest), classOf(grest))
+							be.name, w.m.name, w.op.kind, stage, callOf(wrest), classOf(wrest), gotClass(wrest, grest))
 						c.viol.add(key, rankBase+int64(wi), func() any {
 							return map[string]any{"state": s.canon(), "mode": w.m.name, "op": w.op.String(),
 								"backend": be.name, "first_differing_line": di, "model": wl, "backend_returned": gl,
@@ -833,7 +842,7 @@ func (c *checker) sectionB(states []state, pairKeys int, tripleKeys, tripleVals 
 						grest = gl
 					}
 					key := fmt.Sprintf("batch-divergence %s %s stage=%s call=%s expected=%s got=%s",
-						be.name, bc.label(), stage, callOf(wrest), classOf(wrest), classOf(grest))
+						be.name, bc.label(), stage, callOf(wrest), classOf(wrest), gotClass(wrest, grest))
 					c.viol.add(key, int64(i)<<24+int64(ci), func() any {
 						d := map[string]any{"state": s.canon(), "batch_ops_in_order": opsString(bc.ops), "indexed": bc.indexed,
 							"backend": be.name, "model": wl, "backend_returned": gl}
@@ -1059,7 +1068,7 @@ func (c *checker) sectionC(sets []state, maxLen, maxLenViews, maxLenWrite int) {
 				}
 				if di := c.diffLines(be, prefixed(src.name, want), prefixed(src.name, got), int64(si)<<32, cctx); di >= 0 {
 					wl, gl := line(want, di), line(got, di)
-					key := fmt.Sprintf("read-divergence %s src=%s call=%s expected=%s got=%s", be.name, src.name, callOf(wl), classOf(wl), classOf(gl))
+					key := fmt.Sprintf("read-divergence %s src=%s call=%s expected=%s got=%s", be.name, src.name, callOf(wl), classOf(wl), gotClass(wl, gl))
 					c.viol.add(key, int64(si)<<32, func() any {
 						return map[string]any{"view_contents": s.canon(), "source": src.name, "backend": be.name, "model": wl, "backend_returned": gl,
 							"how": "db: direct; snapshot: NewSnapshot() then the store is rewritten by a batch; ibatch: pending " + opsString(pending) + " over store " + base.canon()}
